@@ -188,7 +188,11 @@ def strat_case(models, max_len=40):
 
 
 def build(model, P, T):
-    m = get_isotherm_model(model, parameters=dict(P))
+    # the parameter mapping is keyed by name; written in one of four key orders (a pure function of the values)
+    keys = list(P)
+    how = int(sum(abs(float(v)) for v in P.values()) * 1e6) % 4
+    keys = [keys, keys[::-1], sorted(keys), sorted(keys, reverse=True)][how]
+    m = get_isotherm_model(model, parameters={k: P[k] for k in keys})
     if model in ("DR", "DA") and T is not None:
         m.__init_parameters__({"temperature": T})
     return m
